@@ -314,7 +314,9 @@ def work_in_tmp_dir(
                 for filename in os.listdir(tmpdir_path):
                     if any([filename.endswith(ext) for ext in kept_file_exts]):
                         logger.info(f"Copying back {filename}")
-                        shutil.copy(filename, here)
+                        shutil.copy(
+                            os.path.join(tmpdir_path, filename), here
+                        )
 
             finally:
                 os.chdir(here)
